@@ -65,6 +65,13 @@ def main():
         ck.e2('index-%s' % e, h_join.make_rel(mk(
             e, nl=2, nr=2, k=1, kmin=0, relate='index', compare='multiset', n_jobs=[1],
             thresholds=thr, missing='sym', allow_missing=[True], props=P)))
+    # token order = (frequency, token), independent of row order (T1), and the edit-distance join's _id / n_jobs
+    from harness import h_core, h_ed
+    ck.e2('T1-token-ordering', h_core.make_t1(dict(nl=2, nr=1, k=2, kmin=0)), bounds=dict(rows='2x1', k=2))
+    ck.e2('ed-join-id-njobs', h_ed.make(dict(entry='ed_join', nl=1, nr=2, lens=[0, 1], q=[2], padding=[True],
+                                             return_set=[False], taus=[1], comp_ops=['<='], missing='sym',
+                                             allow_missing=[False, True], n_jobs=[1, 2, 3], out_sim_score=[True],
+                                             props=['C10', 'CRASH'])), bounds=dict(len='0..1', rows='1x2'))
     ck.finish()
 
 
